@@ -5,6 +5,7 @@ import (
 	"go/token"
 	"go/types"
 	"sort"
+	"strings"
 
 	"golang.org/x/tools/go/ssa"
 
@@ -345,5 +346,140 @@ func c03SstNumeric(c *core.Ctx, r *core.Report) {
 		r.Violation("SIBLING", shortFn(fn)+":every-string-value-is-offered-to-the-float-parser", c.Pos(bypass.Pos()), "a string value can be recorded in the ingest-time segment statistics without having been offered to the float parser: values the record-level statistics treat as numbers (\"+5\", \".5\") are kept as text in the .sst, and a statistics query answers differently when it is served from the .sst")
 	} else {
 		r.OK("SIBLING", shortFn(fn)+":every-string-value-is-offered-to-the-float-parser", c.Pos(fn.Pos()), "every path to the return passes the float parser")
+	}
+}
+
+// (13) STALEREF — the open segment replaces some of its containers wholesale when a segment is rotated (a fresh
+// map or slice is stored into the field: WipBlock.colWips at every resetSegStore).  A copy of the OLD container kept
+// in another long-lived object keeps pointing at the previous segment's buffers: the ingest-time evaluation of
+// persistent queries (segstream.go) then looks at reset columns, every later segment's match bitsets are empty, and
+// queries answered from them miss the events while a raw search finds them.  For every field of the writer
+// package that is re-assigned a freshly allocated container outside the construction of its owner, no value loaded
+// from it is stored into a field of an object that is itself stored into a field or a global (kept beyond the
+// call); passing the container down as an argument is fine.
+func c03StaleRef(c *core.Ctx, r *core.Report) {
+	isWriterPkg := func(fn *ssa.Function) bool { return core.FnPkgPath(fn) == core.ModPath+"/"+pkgWriter }
+	segStoreT, wipBlockT := c.NamedType(pkgWriter, "SegStore"), c.NamedType(pkgWriter, "WipBlock")
+	fresh := func(v ssa.Value) bool {
+		switch x := v.(type) {
+		case *ssa.MakeMap, *ssa.MakeSlice:
+			return true
+		case *ssa.Alloc:
+			return x.Heap
+		}
+		return false
+	}
+	// freshBase: the object whose field is written was itself created in this function (a constructor)
+	var freshBase func(v ssa.Value, depth int) bool
+	freshBase = func(v ssa.Value, depth int) bool {
+		if depth > 4 {
+			return false
+		}
+		switch x := v.(type) {
+		case *ssa.Alloc:
+			return true
+		case *ssa.FieldAddr:
+			return freshBase(x.X, depth+1)
+		case *ssa.UnOp:
+			return false
+		}
+		return false
+	}
+	realloc := map[*types.Var]ssa.Instruction{}
+	for _, fn := range c.RepoFunctions() {
+		if !isWriterPkg(fn) {
+			continue
+		}
+		for _, b := range fn.Blocks {
+			for _, in := range b.Instrs {
+				st, ok := in.(*ssa.Store)
+				if !ok || !fresh(st.Val) {
+					continue
+				}
+				fa, ok := st.Addr.(*ssa.FieldAddr)
+				if !ok || freshBase(fa.X, 0) {
+					continue
+				}
+				// fields of the open segment's own state: SegStore and its work-in-progress block
+				ownerOK := false
+				if pt, ok := fa.X.Type().Underlying().(*types.Pointer); ok {
+					if nt, ok := pt.Elem().(*types.Named); ok && (nt == segStoreT || nt == wipBlockT) {
+						ownerOK = true
+					}
+				}
+				if f := core.FieldOfAddr(fa); f != nil && ownerOK {
+					if _, isMap := f.Type().Underlying().(*types.Map); isMap {
+						realloc[f] = st
+					}
+				}
+			}
+		}
+	}
+	r.Floor("OWN", "containers of the open segment that are replaced wholesale", len(realloc), 1)
+	n := 0
+	var names []string
+	for f := range realloc {
+		names = append(names, f.Name())
+	}
+	sort.Strings(names)
+	bad := map[string]ssa.Instruction{}
+	for _, fn := range c.RepoFunctions() {
+		if !isWriterPkg(fn) {
+			continue
+		}
+		for _, b := range fn.Blocks {
+			for _, in := range b.Instrs {
+				st, ok := in.(*ssa.Store)
+				if !ok {
+					continue
+				}
+				ld, ok := st.Val.(*ssa.UnOp)
+				if !ok || ld.Op != token.MUL {
+					continue
+				}
+				src, ok := ld.X.(*ssa.FieldAddr)
+				if !ok {
+					continue
+				}
+				f := core.FieldOfAddr(src)
+				if f == nil || realloc[f] == nil {
+					continue
+				}
+				dst, ok := st.Addr.(*ssa.FieldAddr)
+				if !ok || core.FieldOfAddr(dst) == f {
+					continue
+				}
+				n++
+				// the holder: kept beyond the call when it is (or is reachable from) an object stored into a field
+				// or a global
+				holder, ok := dst.X.(*ssa.Alloc)
+				kept := !ok // a field of an existing object: long-lived by definition
+				if ok && holder.Referrers() != nil {
+					for _, u := range *holder.Referrers() {
+						if hs, isSt := u.(*ssa.Store); isSt && hs.Val == ssa.Value(holder) {
+							switch hs.Addr.(type) {
+							case *ssa.FieldAddr, *ssa.Global:
+								kept = true
+							}
+						}
+					}
+				}
+				if kept {
+					bad[shortFn(fn)+":"+f.Name()] = st
+				}
+			}
+		}
+	}
+	var keys []string
+	for k := range bad {
+		keys = append(keys, k)
+	}
+	sort.Strings(keys)
+	for _, k := range keys {
+		r.Violation("OWN", k+"-not-cached-across-its-replacement", c.Pos(bad[k].Pos()),
+			"a container that the open segment replaces wholesale at rotation is copied into an object that outlives the call: after the next rotation the copy still points at the previous segment's (reset) buffers, so whatever reads through it — the ingest-time evaluation of persistent queries — sees empty columns, and queries answered from its results miss events that a raw search finds")
+	}
+	if len(keys) == 0 {
+		r.OK("OWN", "writer:replaced-containers-are-not-cached", "-", fmt.Sprintf("replaced wholesale: %s; %d stores of a loaded container into another field, none into an object kept beyond the call", strings.Join(names, ", "), n))
 	}
 }
